@@ -622,10 +622,54 @@ def unit_frames_maps(ctx):
             ctx.holds("maps/%s: fill_deriv_ leaves the caller's raw features and dfdy unchanged" % tag, all(same_elements(p[1][1], x0) and same_elements(p[1][0], g0) for p in dps) and len(dps) >= 1, "", fq[1:])
 
 
+def unit_generator_cache_frames(version, level):
+    """Per-spin caches of LCAONLDFGenerator hold their own data: nothing stored for one spin is changed by a later feature evaluation for the other
+    spin (in particular the convolution result kept for the nuclear-gradient path, grad_mode=True, must be a copy of the shared work buffer)."""
+    def run(ctx):
+        from contracts import genharness as GH
+        GMOD = "ciderpress.dft.lcao_nldf_generator"
+        it = ctx.interp
+        hyps = []
+        RC = tm.var("rhocut")
+        hyps.append(tm.mk_lt(tm.ZERO, RC))
+        h = GH.build(it, version, level, 2, hyps, RC)
+        ctx.assume(GH.ASSUMPTION)
+        nrho = 5 if level == "MGGA" else 4
+        fq = [GMOD + ":LCAONLDFGenerator." + n for n in ("get_features", "_perform_fwd_convolution")]
+        ra, rb = sym_array("ra", (nrho, NS)), sym_array("rb", (nrho, NS))
+        H = list(hyps) + [tm.mk_lt(RC, x) for x in list(ra[0]) + list(rb[0])] + ([tm.mk_le(tm.ZERO, x) for x in list(ra[4]) + list(rb[4])] if level == "MGGA" else [])
+        it.hyps = list(H)
+        for grad_mode in (False, True):
+            tag = "generator-cache[%s,%s,grad_mode=%s]" % (version, level, grad_mode)
+            gen = h["fresh_gen"]()
+            try:
+                it.call_method(gen, "get_features", [ra.copy()], {"spin": 0, "grad_mode": grad_mode})
+            except (Unsupported, PyRaise) as e:
+                ctx.undecided("%s first evaluation" % tag, str(e)[:200], fq)
+                continue
+            cache0 = gen.fields["_cache"][0]
+            snap = {k: (np.array(v, dtype=object).copy() if isinstance(v, np.ndarray) else ([np.array(x, dtype=object).copy() for x in v] if isinstance(v, (list, tuple)) else v)) for k, v in cache0.items()}
+            it.call_method(gen, "get_features", [rb.copy()], {"spin": 1, "grad_mode": grad_mode})
+            ctx.holds("%s the cache of spin 0 is still the same object" % tag, gen.fields["_cache"][0] is cache0, "", fq)
+            for k, v in cache0.items():
+                if isinstance(v, np.ndarray):
+                    ok = same_elements(np.asarray(v, dtype=object), snap[k])
+                elif isinstance(v, (list, tuple)):
+                    ok = all(same_elements(np.asarray(a, dtype=object), b) for a, b in zip(v, snap[k]))
+                else:
+                    ok = True
+                ctx.holds("%s cache[0][%r] is unchanged by get_features(spin=1)" % (tag, k), ok, "entry was modified through a shared buffer", fq, replay=None)
+            if grad_mode:
+                ctx.holds("%s the convolution result is kept for the gradient" % tag, "conv_vq" in cache0, "%s" % sorted(cache0), fq)
+    return run
+
+
 def units():
     u = [("frames/settings", unit_frames_settings), ("frames/maps", unit_frames_maps)]
     for version, level in (("ij", "MGGA"), ("i", "GGA"), ("j", "MGGA"), ("k", "MGGA")):
         u.append(("plan/%s/%s" % (version, level), unit_frames_plan(version, level)))
+    for version in ("j", "ij"):
+        u.append(("generator-cache/%s" % version, unit_generator_cache_frames(version, "MGGA")))
     for N in (1999, 2000, 2001, 4001):
         u.append(("chunk/N%d" % N, unit_chunking(N)))
     for fn in ("nr_rks", "nr_uks", "nr_rks_nldf", "nr_uks_nldf"):
